@@ -51,7 +51,7 @@ func init() {
 				"each RTP client's frames per channel map to strictly increasing published indices with byte-identical payloads, and every packet published after its PLAY answer arrives (to the end, or to its departure); FLV clients: valid FLV whose NAL/AAC payloads are published units in order, at most once. " +
 				"distinct = decision-sequence hash; non-trivial = at least one pre-emption"
 			d.Assumptions = append(d.Assumptions, "simulated time passes only when no task is runnable in these families (no tape-chosen stalls): their rules speak about what was published after a client's answer plus one millisecond and about a publisher keeping a 5 ms cadence, which a stall in the middle of an operation would blur")
-			d.RequiredProbes = []string{"fan.kind.tcp", "fan.kind.udp", "fan.kind.ws", "fan.kind.wsp", "fan.kind.flv", "fan.kind.wsflv", "fan.kind.mcast", "fan.real-pusher", "fan.left-early", "fan.complete-run-checked", "fan.wsp-pause-resume", "fan.flv-complete-run-checked", "fan.player-own-channel-numbers", "fan.player-single-channel-per-track"}
+			d.RequiredProbes = []string{"fan.kind.tcp", "fan.kind.udp", "fan.kind.ws", "fan.kind.wsp", "fan.kind.flv", "fan.kind.wsflv", "fan.kind.mcast", "fan.real-pusher", "fan.left-early", "fan.complete-run-checked", "fan.wsp-pause-resume", "fan.flv-complete-run-checked", "fan.player-own-channel-numbers", "fan.player-single-channel-per-track", "fan.repeated-play"}
 		} else {
 			d.Rule = "same scenario, plus RTSP/TCP and HTTP-FLV clients that stop reading for good (2 KiB window: the server's delivery goroutine blocks in a write); the stream ends by {publisher disconnect, publisher connection reset inside a frame, publisher TEARDOWN, replacement by a new publisher, DELETE /api/v1/streams, Unregist, server shutdown} while consumers are attached, attaching or leaving; " +
 				"every attached client sees its connection closed by the server within 5 simulated seconds, the ended stream's consumer count is 0 (never negative at any sample), rtsp/flv/wsp active counters return to their start values, no UDP socket stays open, no session/delivery/conversion goroutine survives. " +
@@ -78,6 +78,7 @@ type fanConsumer struct {
 	stallAfter time.Duration // >0 (tcp, flv): the client stops reading this long after its PLAY/GET answer and never resumes
 	stalled    bool
 	pauseFirst bool // wsp: PLAY, PAUSE, PLAY before the judged part begins
+	rePlay     bool // rtsp kinds: a second PLAY right after the first
 	dataOnly   bool // wsp leaver: only the data channel goes away; the server has to notice on its next write and end the session
 	ctlClosed  bool
 	leftAt     time.Time
@@ -137,7 +138,7 @@ func buildSvcFan(tier string, prop string) sim.Scenario {
 		span := time.Duration(nPk) * gap
 		kinds := []string{"tcp", "udp", "ws", "wsp", "flv", "wsflv", "mcast"}
 		for i := 0; i < nCons; i++ {
-			c := &fanConsumer{kind: kinds[tp.Choose(len(kinds))], name: fmt.Sprintf("c%d", i), audio: tp.Choose(3) != 0, layout: tp.Choose(6)}
+			c := &fanConsumer{kind: kinds[tp.Choose(len(kinds))], name: fmt.Sprintf("c%d", i), audio: tp.Choose(3) != 0, layout: tp.Choose(6), rePlay: tp.OneIn(4)}
 			if c.kind == "mcast" && !realPusher { // only a pushed stream has a multicast proxy
 				c.kind = "udp"
 			}
@@ -855,6 +856,13 @@ func fanConsume(w *sim.World, sw *svcWorld, c *fanConsumer, base string, pubN fu
 			c.ports = map[string]int{"5000": 0, "5001": 1}
 			if c.audio {
 				c.ports["5002"], c.ports["5003"] = 2, 3
+			}
+		}
+		if c.rePlay && (c.kind == "tcp" || c.kind == "udp" || c.kind == "mcast" || c.kind == "ws") {
+			// a player that repeats its PLAY (some do, as a keep-alive): it is answered and stays attached exactly once
+			w.Probe("fan.repeated-play")
+			if m, err := c.cl.do("PLAY", base, nil, ""); err != nil {
+				c.note = fmt.Sprintf("repeated PLAY: %v %+v", err, m)
 			}
 		}
 		var firstPlay time.Time
